@@ -320,7 +320,7 @@ macro_rules! sack_instance {
 // @unwindset bitvec=9
 sack_instance!(seg_sack_n3_dm2, 3, 65534, -2, false);
 
-// @verif id=SEG.sack3.dm1 props=C01,C04,C06,C09,C10 tier=quick timeout=900
+// @verif id=SEG.sack3.dm1 props=C01,C04,C06,C09 tier=quick timeout=900
 // @functions Segments::remove_up_to_ack, SelectiveAck::iter, SelectiveAck::as_bitslice
 // @bounds as SEG.sack3.dm2 with ack_nr = snd_una-1 (duplicate ACK carrying SACK: the fast-retransmit case)
 // @asserts as SEG.sack3.dm2
@@ -328,7 +328,7 @@ sack_instance!(seg_sack_n3_dm2, 3, 65534, -2, false);
 // @unwindset bitvec=9
 sack_instance!(seg_sack_n3_dm1, 3, 65534, -1, false);
 
-// @verif id=SEG.sack3.d0 props=C01,C04,C06,C09,C10 tier=quick timeout=900
+// @verif id=SEG.sack3.d0 props=C01,C04,C06,C09 tier=quick timeout=900
 // @functions Segments::remove_up_to_ack, SelectiveAck::iter, SelectiveAck::as_bitslice
 // @bounds as SEG.sack3.dm2 with ack_nr = snd_una (cumulative ACK of one segment plus SACK)
 // @asserts as SEG.sack3.dm2
@@ -336,7 +336,7 @@ sack_instance!(seg_sack_n3_dm1, 3, 65534, -1, false);
 // @unwindset bitvec=9
 sack_instance!(seg_sack_n3_d0, 3, 65534, 0, false);
 
-// @verif id=SEG.sack3.dm1b props=C01,C04,C06,C10 tier=quick timeout=900
+// @verif id=SEG.sack3.dm1b props=C01,C04,C06 tier=quick timeout=900
 // @functions Segments::remove_up_to_ack, SelectiveAck::deserialize, SelectiveAck::iter
 // @bounds as SEG.sack3.dm1 with a ONE-byte SACK extension (8 arbitrary bits; seen in the wild) and snd_una = 100
 // @asserts as SEG.sack3.dm2
@@ -344,7 +344,7 @@ sack_instance!(seg_sack_n3_d0, 3, 65534, 0, false);
 // @unwindset bitvec=9
 sack_instance!(seg_sack_n3_dm1_onebyte, 3, 100, -1, true);
 
-// @verif id=SEG.sack3.d1 props=C01,C04,C06,C09,C10 tier=thorough timeout=1800
+// @verif id=SEG.sack3.d1 props=C01,C04,C06,C09 tier=thorough timeout=1800
 // @functions Segments::remove_up_to_ack
 // @bounds as SEG.sack3.dm2 with ack_nr = snd_una+1
 // @asserts as SEG.sack3.dm2
@@ -352,7 +352,7 @@ sack_instance!(seg_sack_n3_dm1_onebyte, 3, 100, -1, true);
 // @unwindset bitvec=9
 sack_instance!(seg_sack_n3_d1, 3, 65534, 1, false);
 
-// @verif id=SEG.sack3.dm3 props=C01,C04,C06,C09,C10 tier=thorough timeout=1800
+// @verif id=SEG.sack3.dm3 props=C01,C04,C06,C09 tier=thorough timeout=1800
 // @functions Segments::remove_up_to_ack
 // @bounds as SEG.sack3.dm2 with ack_nr = snd_una-3
 // @asserts as SEG.sack3.dm2
@@ -360,7 +360,7 @@ sack_instance!(seg_sack_n3_d1, 3, 65534, 1, false);
 // @unwindset bitvec=9
 sack_instance!(seg_sack_n3_dm3, 3, 65534, -3, false);
 
-// @verif id=SEG.sack4.dm1 props=C01,C04,C06,C09,C10 tier=thorough timeout=3400 mem=14
+// @verif id=SEG.sack4.dm1 props=C01,C04,C06,C09 tier=thorough timeout=3400 mem=14
 // @functions Segments::remove_up_to_ack
 // @bounds N = 4 segments at 65533..=0, ack_nr = snd_una-1, 8-byte SACK with 16 arbitrary leading bits
 // @asserts as SEG.sack3.dm2
@@ -368,7 +368,7 @@ sack_instance!(seg_sack_n3_dm3, 3, 65534, -3, false);
 // @unwindset bitvec=9
 sack_instance!(seg_sack_n4_dm1, 4, 65533, -1, false);
 
-// @verif id=SEG.sack2.d0 props=C01,C04,C06,C10 tier=thorough timeout=1800
+// @verif id=SEG.sack2.d0 props=C01,C04,C06 tier=thorough timeout=1800
 // @functions Segments::remove_up_to_ack
 // @bounds N = 2 segments at 65535, 0; ack_nr = snd_una; 8-byte SACK
 // @asserts as SEG.sack3.dm2
@@ -402,7 +402,7 @@ fn enqueue_step<const N: usize>() {
     std::mem::forget(s);
 }
 
-// @verif id=SEG.enq props=C01,C10 tier=quick
+// @verif id=SEG.enq props=C01 tier=quick
 // @functions Segments::enqueue, Segments::new
 // @bounds from every valid state with N in {0, 2} segments; any payload length 1..=65535; probe flag arbitrary; plus the constructor (base case)
 // @asserts invariant; the new last segment covers exactly [offset, offset+len) and is unsent/undelivered; counters advance by len; existing segments untouched; Segments::new satisfies the invariant
@@ -455,7 +455,7 @@ fn pop_probe_step<const N: usize>() -> bool {
     popped
 }
 
-// @verif id=SEG.pop props=C14,C01,C10 tier=quick
+// @verif id=SEG.pop props=C14,C01 tier=quick
 // @functions Segments::pop_mtu_probe
 // @bounds from every valid state with N = 3 segments (and N = 0, 1 in SEG.pop01); every seq_nr argument: u16
 // @asserts popped <=> newest segment is an undelivered probe carrying that sequence number; after a pop offset and len_bytes are restored to their value before the probe was enqueued (invariant holds), earlier segments untouched; refused pop changes nothing
@@ -468,7 +468,7 @@ fn seg_pop_mtu_probe_n3() {
     kani::cover!(!popped, "pop refused");
 }
 
-// @verif id=SEG.pop01 props=C14,C01,C10 tier=quick
+// @verif id=SEG.pop01 props=C14,C01 tier=quick
 // @functions Segments::pop_mtu_probe
 // @bounds N = 0 and N = 1 segments; every seq_nr argument
 // @asserts as SEG.pop (popping the only segment leaves an empty, consistent queue; an empty queue refuses)
@@ -524,7 +524,7 @@ fn pop_expired_step<const N: usize>() -> u8 {
     code
 }
 
-// @verif id=SEG.popx props=C14,C01,C10 tier=quick
+// @verif id=SEG.popx props=C14,C01 tier=quick
 // @functions Segments::pop_expired_mtu_probe, Segment::retransmit_count
 // @bounds from every valid state with N = 3 (N = 0, 1 in SEG.popx01); retransmit_timed_out arbitrary; max_probe_retransmissions 0..=8
 // @asserts Expired <=> newest segment is an undelivered probe, the retransmit timer fired and its retransmit count reached the limit; then offset/len_bytes are restored, rewind_to is the previous sequence number, size reported; NotExpired exactly while an undelivered probe is newest (so nothing is enqueued behind it); Empty otherwise; state unchanged unless Expired
@@ -538,7 +538,7 @@ fn seg_pop_expired_mtu_probe_n3() {
     kani::cover!(c == 0, "no outstanding probe");
 }
 
-// @verif id=SEG.popx01 props=C14,C01,C10 tier=quick
+// @verif id=SEG.popx01 props=C14,C01 tier=quick
 // @functions Segments::pop_expired_mtu_probe
 // @bounds N = 0 and N = 1
 // @asserts as SEG.popx
@@ -587,7 +587,7 @@ fn seg_flight_size_n3() {
     std::mem::forget(s);
 }
 
-// @verif id=SEG.iter props=C01,C06,C09,C10 tier=quick timeout=900
+// @verif id=SEG.iter props=C01,C06,C09 tier=quick timeout=900
 // @functions Segments::iter_mut_for_sending, SegmentForSending::{seq_nr, payload_offset, payload_size, is_delivered, on_sent, send_count, retransmit_count}
 // @bounds N = 3 segments, every snd_una, start = None or Some(any u16); the iterator is drained (<= 3 items) and on_sent applied to the first item
 // @asserts yields exactly the undelivered segments with index >= max(start - snd_una, 0) (within tolerance), in order; each item's seq_nr == snd_una + index, payload_offset == bytes queued before it (its position in the send ring), payload_size its size; a delivered (acknowledged) segment is never yielded; on_sent moves NotSent->SentTime->Retransmitted{1}->Retransmitted{n+1}
